@@ -311,6 +311,9 @@ func isParamLike(v *types.Var) bool {
 	return false
 }
 
+// rootIfaces: interface types declared in the library's root package (filled by the loader).
+var rootIfaces = map[string]bool{}
+
 func pureExt(id string) bool {
 	if strings.HasPrefix(id, "if:") {
 		name := id[strings.LastIndex(id, ".")+1:]
@@ -329,7 +332,9 @@ func pureExt(id string) bool {
 		case "ConsensusPayload":
 			return name != "SetValidatorIndex"
 		}
-		return true
+		// getters of the library's own interfaces (callback contract A2); methods of interfaces declared elsewhere in
+		// the module (e.g. a Serializable in the reference implementations) may mutate their receiver
+		return rootIfaces[tn]
 	}
 	if strings.HasPrefix(id, "ext:go.uber.org/zap") || strings.HasPrefix(id, "ext:fmt.") || strings.HasPrefix(id, "ext:errors.") {
 		return true
@@ -641,6 +646,23 @@ func hasParamTerm(t *Term) bool {
 	return false
 }
 
+// paramsCovered: every parameter term of t has a substitute.
+func paramsCovered(t *Term, sub map[string]*Term) bool {
+	if t == nil {
+		return true
+	}
+	if t.K == KParam {
+		_, ok := sub[t.S]
+		return ok
+	}
+	for _, a := range t.Args {
+		if !paramsCovered(a, sub) {
+			return false
+		}
+	}
+	return true
+}
+
 func boolResult(fn *FuncInfo) bool {
 	sig := fn.Obj.Type().(*types.Signature)
 	if sig.Results().Len() == 0 {
@@ -697,9 +719,10 @@ func (a *Analysis) computeSummary(fn *FuncInfo, ctx []Lit) *Summary {
 		pf := map[string]Lit{}
 		for k, v := range e.F.m {
 			at := e.F.atoms[k]
-			if hasLocalTerm(at.A) || hasLocalTerm(at.B) || hasParamTerm(at.A) || hasParamTerm(at.B) {
+			if hasLocalTerm(at.A) || hasLocalTerm(at.B) {
 				continue
 			}
+			// literals over the parameters' entry values are kept: the call site substitutes the actual arguments
 			pf[Lit{at, v}.String()] = Lit{at, v}
 		}
 		if c.post == nil {
